@@ -54,7 +54,7 @@ def _quaternions_guard_clauses(q1: Union[list, np.ndarray], q2: Union[list, np.n
     for label, quaternion in zip(['q1', 'q2'], [q1, q2]):
         if not isinstance(quaternion, (list, np.ndarray)):
             raise TypeError(f"{label} must be an array. Got {type(quaternion)}")
-    q1, q2 = np.copy(q1), np.copy(q2)
+    q1, q2 = np.array(q1, dtype=float), np.array(q2, dtype=float)
     for quaternion in [q1, q2]:
         if quaternion.shape[-1] != 4:
             raise ValueError(f"Quaternions must be of shape (N, 4) or (4,). Got {quaternion.shape}.")
@@ -172,7 +172,7 @@ def chordal(R1: np.ndarray, R2: np.ndarray) -> Union[float, np.ndarray]:
 
     """
     _rotations_guard_clauses(R1, R2)
-    R1, R2 = np.copy(R1), np.copy(R2)
+    R1, R2 = np.array(R1, dtype=float), np.array(R2, dtype=float)
     if R1.ndim < 3:
         return np.linalg.norm(R1-R2, 'fro')
     return np.array([np.linalg.norm(r1-r2, 'fro') for r1, r2 in zip(R1, R2)])
@@ -226,7 +226,7 @@ def identity_deviation(R1: np.ndarray, R2: np.ndarray) -> float:
 
     """
     _rotations_guard_clauses(R1, R2)
-    R1, R2 = np.copy(R1), np.copy(R2)
+    R1, R2 = np.array(R1, dtype=float), np.array(R2, dtype=float)
     return np.linalg.norm(np.eye(3)-R1@R2.T, 'fro')
 
 def angular_distance(R1: np.ndarray, R2: np.ndarray) -> float:
@@ -266,7 +266,7 @@ def angular_distance(R1: np.ndarray, R2: np.ndarray) -> float:
 
     """
     _rotations_guard_clauses(R1, R2)
-    R1, R2 = np.copy(R1), np.copy(R2)
+    R1, R2 = np.array(R1, dtype=float), np.array(R2, dtype=float)
     R1R2T = DCM(R1@R2.T)
     return np.linalg.norm(R1R2T.log)
 
@@ -317,7 +317,7 @@ def qdist(q1: np.ndarray, q2: np.ndarray) -> float:
     0.0
     """
     _quaternions_guard_clauses(q1, q2)
-    q1, q2 = np.copy(q1), np.copy(q2)
+    q1, q2 = np.array(q1, dtype=float), np.array(q2, dtype=float)
     if q1.ndim == 1:
         q1 /= np.linalg.norm(q1)
         q2 /= np.linalg.norm(q2)
@@ -374,7 +374,7 @@ def qeip(q1: np.ndarray, q2: np.ndarray) -> float:
     0.0
     """
     _quaternions_guard_clauses(q1, q2)
-    q1, q2 = np.copy(q1), np.copy(q2)
+    q1, q2 = np.array(q1, dtype=float), np.array(q2, dtype=float)
     if q1.ndim == 1:
         q1 /= np.linalg.norm(q1)
         q2 /= np.linalg.norm(q2)
@@ -428,7 +428,7 @@ def qcip(q1: np.ndarray, q2: np.ndarray) -> float:
     0.0
     """
     _quaternions_guard_clauses(q1, q2)
-    q1, q2 = np.copy(q1), np.copy(q2)
+    q1, q2 = np.array(q1, dtype=float), np.array(q2, dtype=float)
     if q1.ndim == 1:
         q1 /= np.linalg.norm(q1)
         q2 /= np.linalg.norm(q2)
@@ -484,7 +484,7 @@ def qad(q1: np.ndarray, q2: np.ndarray) -> float:
 
     """
     _quaternions_guard_clauses(q1, q2)
-    q1, q2 = np.copy(q1), np.copy(q2)
+    q1, q2 = np.array(q1, dtype=float), np.array(q2, dtype=float)
     if q1.ndim == 1:
         q1 /= np.linalg.norm(q1)
         q2 /= np.linalg.norm(q2)
